@@ -54,6 +54,38 @@ void exit(int); int printf(const char *, ...);
 #ifndef IR_VISIBLE_END
 #define IR_VISIBLE_END() ((void)0)
 #endif
+/* hooks around every atomic instruction of the IR (memory order: 0 relaxed, 2 acquire, 3 release, 4 acq_rel, 5 seq_cst); harnesses use them to
+   inject interference from other threads (tier S), to record state transitions, or to maintain happens-before clocks */
+#ifndef IR_CAS_PRE
+#define IR_CAS_PRE(a, o) ((void)0)
+#endif
+#ifndef IR_CAS_OK
+#define IR_CAS_OK(a, old, nw, o) ((void)0)
+#endif
+#ifndef IR_CAS_FAIL
+#define IR_CAS_FAIL(a, old, o) ((void)0)
+#endif
+#ifndef IR_RMW_PRE
+#define IR_RMW_PRE(a, o) ((void)0)
+#endif
+#ifndef IR_RMW_DONE
+#define IR_RMW_DONE(a, old, o) ((void)0)
+#endif
+#ifndef IR_ALOAD_PRE
+#define IR_ALOAD_PRE(a, o) ((void)0)
+#endif
+#ifndef IR_ALOAD_DONE
+#define IR_ALOAD_DONE(a, v, o) ((void)0)
+#endif
+#ifndef IR_ASTORE_PRE
+#define IR_ASTORE_PRE(a, o) ((void)0)
+#endif
+#ifndef IR_ASTORE_DONE
+#define IR_ASTORE_DONE(a, v, o) ((void)0)
+#endif
+#ifndef IR_FENCE
+#define IR_FENCE(o) ((void)0)
+#endif
 #ifndef IR_SPURIOUS
 #define IR_SPURIOUS(weak) 0
 #endif
